@@ -486,7 +486,8 @@ class TDS(BaseRoutine):
             logger.error("Simulation terminated at t=%.4f s.", system.dae.t)
             system.exit_code += 1
         elif system.dae.t == self.config.tf:
-            succeed = True   # success flag
+            # a failed initialization test has been counted in `exit_code` and is not a success
+            succeed = self.test_ok is not False   # success flag
             system.exit_code += 0
             self.pbar.update(100 - self.last_pc)
         else:
